@@ -96,6 +96,15 @@ func main() {
 		sdfCase2(c, n, 10)
 	})
 
+	// beyond any plausible size threshold of the builders (2^14 objects and more)
+	huge := func(c *vlib.Case) int { return 17000 + c.Rng.Intn(9000) }
+	r.Section("coll3d.huge", r.N(2, 12), vlib.SectionOpts{NoScale: true}, func(c *vlib.Case) { colliderCase3(c, huge(c), 10) })
+	r.Section("sdf3d.huge", r.N(1, 8), vlib.SectionOpts{NoScale: true}, func(c *vlib.Case) { sdfCase3(c, huge(c), 12) })
+	r.Section("tree3d.huge", r.N(1, 8), vlib.SectionOpts{NoScale: true}, func(c *vlib.Case) { treeCase(c, tree3API, huge(c), 12) })
+	r.Section("tree2d.huge", r.N(1, 8), vlib.SectionOpts{NoScale: true}, func(c *vlib.Case) { treeCase(c, tree2API, huge(c), 12) })
+	r.Section("coll2d.huge", r.N(2, 12), vlib.SectionOpts{NoScale: true}, func(c *vlib.Case) { colliderCase2(c, huge(c), 10) })
+	r.Section("objects.huge", r.N(1, 8), vlib.SectionOpts{NoScale: true}, func(c *vlib.Case) { objectCase(c, huge(c), 8) })
+
 	r.Section("objects", r.N(4500, 25000), vlib.SectionOpts{}, func(c *vlib.Case) {
 		n := sizeDist(c.Rng, 300)
 		if c.Rng.Intn(3) == 0 {
